@@ -143,6 +143,8 @@ def build_found_rule(rng, decoded, features=None, sections=None, binary=False, m
 
     # ---- macros
     macros_arg = []
+    if "macro_substr" in features or "macro_args" in features or "macro_files" in features:
+        features = set(features) | {"macros"}
     if "macros" in features:
         # whole-item macro
         cands = [ix for ix, it in enumerate(items) if isinstance(it, (str, dict)) and not (isinstance(it, str) and it.startswith("@"))]
@@ -162,6 +164,30 @@ def build_found_rule(rng, decoded, features=None, sections=None, binary=False, m
                     macros_infile.append({"name": "@anyop", "pattern": ANY_OP})
                     it[k0][0] = "@anyop"
                     break
+        # a string macro used INSIDE a longer name ("%r@sfx" with @sfx = "ax")
+        if "macro_substr" in features:
+            done_sub = False
+            for it in items:
+                if done_sub:
+                    break
+                if isinstance(it, dict) and len(it) == 1:
+                    k0 = next(iter(it))
+                    v = it[k0]
+                    if isinstance(v, list) and not k0.startswith(("$", "@")):
+                        for j, o in enumerate(v):
+                            if isinstance(o, str) and len(o) >= 3 and gen._SAFE.match(o) and o[0] == "%":
+                                cut = rng.randrange(2, len(o))
+                                macros_infile.append({"name": "@sfx", "pattern": o[cut:]})
+                                v[j] = o[:cut] + "@sfx"
+                                done_sub = True
+                                break
+            if not done_sub:
+                for ix, it in enumerate(items):
+                    if isinstance(it, str) and len(it) >= 3 and gen._SAFE.match(it) and not it.startswith("@"):
+                        cut = rng.randrange(1, len(it))
+                        macros_infile.append({"name": "@msfx", "pattern": it[cut:]})
+                        items[ix] = it[:cut] + "@msfx"
+                        break
         # parameterised macro
         if "macro_args" in features:
             for ix, it in enumerate(items):
@@ -240,7 +266,7 @@ def build_found_rule(rng, decoded, features=None, sections=None, binary=False, m
 
 ANY_ITEM = object()
 FEATURES = ["fullnames", "valid_addr", "times", "or", "and", "any_order", "not", "op_not", "op_or", "capture",
-            "macros", "macro_args", "macro_files", "cfg_flags", "cfg_style", "cfg_sections", "cfg_plugins"]
+            "macros", "macro_args", "macro_files", "macro_substr", "cfg_flags", "cfg_style", "cfg_sections", "cfg_plugins"]
 
 
 # ===================================================================== D-faults
@@ -447,6 +473,7 @@ def doc_faults(rng, rule_doc, macro_files, rule_rel="rule.yaml", max_per_kind=6,
         bad_times = [
             ("negative:int", -1), ("negative:int", -3), ("negative:min", {"min": -1, "max": 2}), ("negative:max", {"min": 0, "max": -1}),
             ("negative:both", {"min": -2, "max": -1}), ("inverted", {"min": 3, "max": 1}), ("inverted", {"min": 2, "max": 0}),
+            ("negative:minonly", {"min": -2}), ("negative:maxonly", {"max": -1}), ("negative:min_maxnull", {"min": -3, "max": None}),
         ]
         for path, node in item_paths:
             if isinstance(node, str) and node.startswith(("&",)):
@@ -483,6 +510,12 @@ def doc_faults(rng, rule_doc, macro_files, rule_rel="rule.yaml", max_per_kind=6,
             if isinstance(path[-1], str) and path[-2:-1] == ("$deref",) and isinstance(node, (str, int)):
                 if room("undef:deref_value"):
                     add(f"undefined_macro:deref_value@{_p(path)}", _edit(rule_doc, path, UNDEF), klass="undefined_macro")
+            # inside a longer name, where string macros are substituted as substrings
+            if isinstance(path[-1], int) and isinstance(node, str) and not node.startswith(("@", "&")) and gen._SAFE.match(node.replace("@", "")):
+                lvl = "mnemonic" if _is_instr_item_pos(path[1:]) else "operand"
+                if room(f"undef:substring:{lvl}"):
+                    cut = rng.randrange(1, max(2, len(node)))
+                    add(f"undefined_macro:substring_{lvl}@{_p(path)}", _edit(rule_doc, path, node[:cut] + UNDEF), klass="undefined_macro")
             # as the argument of a parameterised macro call
             if isinstance(node, dict) and len(node) > 1 and any(isinstance(k, str) and k.startswith("@") for k in node):
                 for k in node:
